@@ -631,7 +631,7 @@ theorem apply_MapOK (sp : Spec) (hsp : SpecOK sp) (m m' : SMap) (op : Op) (hm : 
     have h' : apply sp m ⟨.add, op.scope, op.name, op.value⟩ = .ok m' := by
       have : op = ⟨.add, op.scope, op.name, op.value⟩ := by cases op; simp_all
       rw [← this]; exact h
-    obtain ⟨s', t, o, l, hs', hty, hfp, hex, hm', hpw⟩ := apply_add_inv sp m m' _ _ _ h'
+    obtain ⟨s', t, o, l, hs', hty, hfp, hex, hm', hpw, _⟩ := apply_add_inv sp m m' _ _ _ h'
     rw [hs] at hs'; cases hs'
     subst hm'
     have hev := existValue_ValOK sp hsp m hm op.name s t hs hty
